@@ -12,7 +12,9 @@ PROPERTY = "C17"
 ASSUMPTIONS = [
     "clean_composite_curve: finely sampled smooth / kinked curves of 101 and 401 points with spans 0.14 .. 5000, and every polyline with strictly descending T (n<=6 quick / 7 thorough) and H in {0..3}^n, at scales 1 and 1e-3, plus +-5e-7 perturbations of one point",
     "get_piecewise_data_points: every polyline with x = 0..n-1 and y in {0..3}^n (n = 2..6 quick / 7 thorough), eps in {0.1,0.5,1}, hot and cold; "
-    "finite parametrised families (convex, concave, sigmoid, staircase, steam-like) of 11/50/500 points reach the refinement branch",
+    "finite parametrised families (convex, concave, sigmoid, staircase, steam-like) of 11/50/500 points reach the refinement branch; "
+    "monotone lattice paths over the moves {plateau, vertical step, diagonal, shallow, steep} cover profiles where the temperature is not a function of the enthalpy "
+    "(the one-sided rule is evaluated only where the simplified profile is single valued)",
     "distance = Euclidean point-to-polyline distance in the curve's own coordinates (the metric the library's RDP uses)",
 ]
 
@@ -123,7 +125,39 @@ def family(kind, n):
     return xs, ys
 
 
+MOVES = [(1, 0), (0, 1), (1, 1), (2, 1), (1, 2)]      # plateau, vertical step, diagonal, shallow, steep (in units of `scale`)
+
+
+def path_points(moves, scale):
+    pts = [[0.0, 0.0]]
+    for m in moves:
+        dx, dy = MOVES[m]
+        pts.append([pts[-1][0] + dx * scale, pts[-1][1] + dy * scale])
+    return pts
+
+
+def path_cases(tier):
+    """Monotone lattice paths: polylines WITH vertical steps (same enthalpy, different temperature) and plateaus.
+    short paths (no refinement runs): every move sequence; long paths (more than 10 corners, the refinement runs): every sequence
+    without two equal consecutive moves, so that every vertex is a corner"""
+    nshort = 5 if tier == "quick" else 6
+    for n in range(1, nshort + 1):
+        for mv in itertools.product(range(len(MOVES)), repeat=n):
+            for eps in (0.1, 0.5):
+                for hot in (True, False):
+                    yield {"kind": "path", "moves": list(mv), "scale": 1.0, "eps": eps, "hot": hot, "rev": False}
+            yield {"kind": "path", "moves": list(mv), "scale": 1.0, "eps": 0.5, "hot": True, "rev": True}
+    kinds = (0, 1, 2) if tier == "quick" else (0, 1, 2, 3)
+    for n in ((10,) if tier == "quick" else (10, 11)):
+        for mv in itertools.product(kinds, repeat=n):
+            if any(a == b for a, b in zip(mv[:-1], mv[1:])):
+                continue
+            for hot, rev in ((True, False), (False, True)):
+                yield {"kind": "path", "moves": list(mv), "scale": 10.0, "eps": 0.5, "hot": hot, "rev": rev}
+
+
 def pw_cases(tier, inst):
+    yield from path_cases(tier)
     nmax = 6 if tier == "quick" else 7
     for n in range(2, nmax + 1):
         for v in itertools.product(range(4), repeat=n):
@@ -166,6 +200,11 @@ def pw_run(case, res: Result):
     elif case["kind"] == "lattice":
         ys = [float(v) for v in case["y"]]
         xs = [float(i) for i in range(len(ys))]
+    elif case["kind"] == "path":
+        pts = path_points(case["moves"], case["scale"])
+        if case.get("rev"):
+            pts = pts[::-1]
+        xs, ys = [p[0] for p in pts], [p[1] for p in pts]
     else:
         xs, ys = family(case["kind"], case["n"])
         if case.get("rev"):
@@ -189,7 +228,10 @@ def pw_run(case, res: Result):
         res.violate("end_points_not_kept", case, detail, "pw:end_points_not_kept:" + tag)
         return
     # original order: x of the result is monotone in the same direction as the input
-    sgn = 1 if curve[-1][0] > curve[0][0] else -1
+    if curve[-1][0] != curve[0][0]:
+        sgn = 1 if curve[-1][0] > curve[0][0] else -1
+    else:
+        sgn = 1 if not case.get("rev") else -1
     if any((b[0] - a[0]) * sgn < -1e-9 for a, b in zip(out[:-1], out[1:])):
         res.violate("order_changed", case, detail, "pw:order_changed:" + tag)
     worst = max(_dist_point_polyline(p, out) for p in curve)
@@ -233,6 +275,7 @@ SUBCHECKS = {
         describe="get_piecewise_data_points on all lattice polylines and parametrised families",
         rule="case = (polyline, eps, hot/cold); non-trivial = simplification removed an interior point or the refinement branch ran (>10 breakpoints)",
         cases=pw_cases, run=pw_run,
-        bound=lambda t: "{0..3}^n n<=6 x 3 eps x hot/cold + 5 families x {11,50} points x 4 eps" if t == "quick" else "{0..3}^n n<=7 + families up to 500 points",
+        bound=lambda t: ("{0..3}^n n<=6 x 3 eps x hot/cold + 5 families x {11,50} points x 4 eps + lattice paths with vertical steps and plateaus: all of <=5 moves from 5, all corner-only paths of 10 moves from 3" if t == "quick"
+                         else "{0..3}^n n<=7 + families up to 500 points + lattice paths: all of <=6 moves from 5, corner-only paths of 10-11 moves from 4"),
     ),
 }
